@@ -25,7 +25,10 @@ FsOK == /\ ToSet(Ev.dir) = {n \in Names : disk'[InP(n)] # NoKey} /\ Len(Ev.dir) 
 Classes == res'.fs = Ev.fs /\ res'.mem = Ev.mem
 
 TReset  == IsEvent("Reset") /\ m' = M0 /\ disk' = Disk0 /\ mem' = M0 /\ res' = NoRes /\ UNCHANGED dev
-TPut    == IsEvent("Put") /\ Ev.n \in Names /\ Ev.k \in Keys /\ Put(Ev.n, Ev.k) /\ Classes /\ FsOK /\ UNCHANGED dev
+\* a refused Put may report any of the reasons that apply (PutFs); a bad key (Raw() fails) is refused and FsOK
+\* then demands the directory to hold what it held before
+TPut    == IsEvent("Put") /\ Ev.n \in Names /\ Ev.k \in PutKeys /\ Ev.fs \in PutFs(Ev.n, Ev.k) /\ PutR(Ev.n, Ev.k, Ev.fs)
+           /\ Classes /\ FsOK /\ UNCHANGED dev
 TGet    == IsEvent("Get") /\ Ev.n \in Names /\ Get(Ev.n) /\ Classes /\ FsOK
            /\ res'.key = Ev.key /\ (Ev.mem # "skip" => res'.mkey = Ev.mkey) /\ UNCHANGED dev
 THas    == IsEvent("Has") /\ Ev.n \in Names /\ Has(Ev.n) /\ Classes /\ FsOK /\ UNCHANGED dev
